@@ -1,12 +1,15 @@
-(* RouterEmbed.v — the router sees versions only through comparisons: what a
-   table accepts and what a request is answered are invariant under any order
-   embedding of the version type.  Stated on the declarative side
-   (RouterSpec.v) and carried to the trie by the refinement theorems
-   (RouterProofs.v): registration of the mapped table succeeds iff
-   registration of the table does, and every lookup finds the corresponding
-   endpoint.  This is the model-side justification for carrying chain indices
-   instead of semver values in the correspondence (C01 C02 C04 C06) and for
-   the embedding used by the pipeline judge. *)
+(* RouterEmbed.v — the router sees versions only through comparisons with the
+   bounds of the registered ranges: what a table accepts and what a request is
+   answered are invariant under any map of the version type that preserves the
+   comparisons in which at least one side is a "known" version (P), provided
+   every range bound is known — an order embedding relative to P
+   (VersionsEmbed.v).  Stated on the declarative side (RouterSpec.v) and
+   carried to the trie by the refinement theorems (RouterProofs.v):
+   registration of the mapped table succeeds iff registration of the table
+   does, and every lookup has the corresponding outcome.  This is the
+   model-side justification for carrying chain indices instead of semver
+   values in the correspondence (C01 C02 C04 C06) and, with RankEmbed.v, for
+   the ranking used by the pipeline judge. *)
 From DS Require Import Base Versions VersionsProofs VersionsEmbed Router RouterSpec RouterProofs.
 
 Section REmbed.
@@ -18,105 +21,167 @@ Section REmbed.
   Hypothesis TOV : total_order V cmpV botV.
   Hypothesis TOW : total_order W cmpW botW.
   Variable f : V -> W.
-  Hypothesis f_embeds : forall a b, cmpW (f a) (f b) = cmpV a b.
+  Variable P : V -> Prop.
+  Hypothesis f_embeds : forall a b, P a \/ P b -> cmpW (f a) (f b) = cmpV a b.
 
   Definition map_ep (e : endpoint V) : endpoint W :=
     mkEp (e_id e) (e_method e) (map_range f (e_versions e)) (e_ctype e) (e_maxbytes e) (e_visible e).
   Definition map_decl (d : decl V) : decl W := (fst d, map_ep (snd d)).
+  Definition known (eps : list (decl V)) : Prop := forall d, In d eps -> bounds V P (e_versions (snd d)).
+  Definition map_outcome (o : outcome V) : outcome W :=
+    match o with
+    | Found e vars => Found (map_ep e) vars
+    | E404 => E404
+    | E405 a => E405 a
+    | EPanic => EPanic
+    end.
 
-  Lemma serves_embed d m segs ov :
+  Lemma serves_embed d m segs ov : bounds V P (e_versions (snd d)) ->
     serves W cmpW (map_decl d) m segs (option_map f ov) = serves V cmpV d m segs ov.
   Proof.
-    unfold serves, map_decl, map_ep. cbn [fst snd e_method e_versions].
-    rewrite (vmatches_embed V W cmpV cmpW f f_embeds). reflexivity.
+    intros Hb. unfold serves, map_decl, map_ep. cbn [fst snd e_method e_versions].
+    rewrite (vmatches_embed V W cmpV cmpW f P f_embeds _ _ Hb). reflexivity.
   Qed.
 
-  Lemma tserves_embed d segs ov :
+  Lemma tserves_embed d segs ov : bounds V P (e_versions (snd d)) ->
     tserves W cmpW (map_decl d) segs (option_map f ov) = tserves V cmpV d segs ov.
   Proof.
-    unfold tserves, map_decl, map_ep. cbn [fst snd e_versions].
-    rewrite (vmatches_embed V W cmpV cmpW f f_embeds). reflexivity.
+    intros Hb. unfold tserves, map_decl, map_ep. cbn [fst snd e_versions].
+    rewrite (vmatches_embed V W cmpV cmpW f P f_embeds _ _ Hb). reflexivity.
   Qed.
 
-  Lemma conflicts_embed d d' :
+  Lemma conflicts_embed d d' : bounds V P (e_versions (snd d)) -> bounds V P (e_versions (snd d')) ->
     conflicts W cmpW (map_decl d) (map_decl d') = conflicts V cmpV d d'.
   Proof.
-    unfold conflicts, map_decl, map_ep. cbn [fst snd e_method e_versions].
-    rewrite (overlaps_embed V W cmpV cmpW f f_embeds). reflexivity.
+    intros Hb Hb'. unfold conflicts, map_decl, map_ep. cbn [fst snd e_method e_versions].
+    rewrite (overlaps_embed V W cmpV cmpW f P f_embeds _ _ Hb' Hb). reflexivity.
   Qed.
 
-  Lemma acceptable_embed eps d :
+  Lemma acceptable_embed eps d : known eps -> bounds V P (e_versions (snd d)) ->
     acceptable W cmpW (map map_decl eps) (map_decl d) = acceptable V cmpV eps d.
   Proof.
-    unfold acceptable. cbn [map_decl fst]. f_equal.
+    intros Hk Hb. unfold acceptable. cbn [map_decl fst]. f_equal.
     induction eps as [|d' eps IH]; cbn [map forallb]; [reflexivity|].
-    rewrite conflicts_embed, IH. reflexivity.
+    rewrite conflicts_embed; [|exact Hb|apply Hk; left; reflexivity].
+    rewrite IH; [reflexivity|]. intros x Hx. apply Hk. right. exact Hx.
   Qed.
 
   (* registration: the mapped table is accepted exactly when the table is *)
-  Theorem table_ok_embed eps : table_ok W cmpW (map map_decl eps) <-> table_ok V cmpV eps.
+  Theorem table_ok_embed eps : known eps -> (table_ok W cmpW (map map_decl eps) <-> table_ok V cmpV eps).
   Proof.
-    unfold table_ok. split; intros [H1 H2]; split.
+    intros Hk. unfold table_ok. split; intros [H1 H2]; split.
     - rewrite Forall_forall in *. intros d Hd. apply (H1 (map_decl d)). apply in_map. exact Hd.
     - clear H1. induction eps as [|d eps IH]; [constructor|].
       cbn [map] in H2. inversion H2 as [|? ? Hf Hr]; subst. constructor.
-      + rewrite Forall_forall in *. intros d' Hd'. rewrite <- conflicts_embed. apply Hf. apply in_map. exact Hd'.
-      + apply IH. exact Hr.
+      + rewrite Forall_forall in *. intros d' Hd'.
+        rewrite <- conflicts_embed; [|apply Hk; right; exact Hd'|apply Hk; left; reflexivity].
+        apply Hf. apply in_map. exact Hd'.
+      + apply IH; [|exact Hr]. intros x Hx. apply Hk. right. exact Hx.
     - rewrite Forall_forall in *. intros d' Hd'. apply in_map_iff in Hd'. destruct Hd' as (d & <- & Hd). apply H1. exact Hd.
     - clear H1. induction H2 as [|d eps Hf Hr IH]; cbn [map]; constructor.
       + rewrite Forall_forall in *. intros d' Hd'. apply in_map_iff in Hd'. destruct Hd' as (x & <- & Hx).
-        rewrite conflicts_embed. apply Hf. exact Hx.
-      + exact IH.
+        rewrite conflicts_embed; [|apply Hk; right; exact Hx|apply Hk; left; reflexivity]. apply Hf. exact Hx.
+      + apply IH. intros x Hx. apply Hk. right. exact Hx.
   Qed.
 
-  Theorem build_embed_accepts eps :
-    (exists r, build V cmpV eps = Ok r) <-> (exists r', build W cmpW (map map_decl eps) = Ok r').
+  Theorem build_embed_accepts eps : known eps ->
+    ((exists r, build V cmpV eps = Ok r) <-> (exists r', build W cmpW (map map_decl eps) = Ok r')).
   Proof.
+    intros Hk.
     pose proof (build_spec V cmpV eps) as HV. pose proof (build_spec W cmpW (map map_decl eps)) as HW.
     split; intros [r Hr].
     - rewrite Hr in HV. destruct HV as (Hok & _).
       destruct (build W cmpW (map map_decl eps)) as [r'|e]; [exists r'; reflexivity|].
-      exfalso. apply HW. apply table_ok_embed. exact Hok.
+      exfalso. apply HW. apply table_ok_embed; assumption.
     - rewrite Hr in HW. destruct HW as (Hok & _).
       destruct (build V cmpV eps) as [r'|e]; [exists r'; reflexivity|].
-      exfalso. apply HV. apply table_ok_embed. exact Hok.
+      exfalso. apply HV. apply table_ok_embed; assumption.
   Qed.
 
-  Lemma version_ok_embed eps ov : version_ok V cmpV eps ov -> version_ok W cmpW (map map_decl eps) (option_map f ov).
+  Lemma version_ok_embed eps ov : known eps ->
+    version_ok V cmpV eps ov -> version_ok W cmpW (map map_decl eps) (option_map f ov).
   Proof.
-    intros [Hw Hn]. split.
+    intros Hk [Hw Hn]. split.
     - intros d' Hd'. apply in_map_iff in Hd'. destruct Hd' as (d & <- & Hd). specialize (Hw d Hd).
-      unfold map_decl, map_ep. cbn [snd e_versions]. unfold wf_range in *.
-      destruct (e_versions (snd d)); cbn [map_range]; auto.
-      unfold le in *. rewrite f_embeds. exact Hw.
+      specialize (Hk d Hd). unfold map_decl, map_ep. cbn [snd e_versions]. unfold wf_range in *.
+      destruct (e_versions (snd d)); cbn [map_range bounds] in *; auto.
+      unfold le in *. rewrite f_embeds; [exact Hw|tauto].
     - destruct ov; cbn [option_map]; [exact I|].
       intros d' Hd'. apply in_map_iff in Hd'. destruct Hd' as (d & <- & Hd). specialize (Hn d Hd).
       unfold map_decl, map_ep. cbn [snd e_versions]. rewrite Hn. reflexivity.
   Qed.
 
-  (* dispatch: the mapped trie finds the mapped endpoint, with the same bindings *)
-  Theorem lookup_embed_found eps r r' m segs ov e vars :
-    build V cmpV eps = Ok r -> build W cmpW (map map_decl eps) = Ok r' -> version_ok V cmpV eps ov ->
-    lookup V cmpV r m segs ov = Found e vars ->
-    lookup W cmpW r' m segs (option_map f ov) = Found (map_ep e) vars.
-  Proof.
-    intros Hb Hb' Hv Hl.
-    apply (dispatch_exact V cmpV botV TOV eps r m segs ov e vars Hb Hv) in Hl.
-    destruct Hl as (t & b & Hin & Hs & Hvars).
-    apply (dispatch_exact W cmpW botW TOW (map map_decl eps) r' m segs (option_map f ov) (map_ep e) vars Hb'
-             (version_ok_embed eps ov Hv)).
-    exists t, b. split; [|split; [|exact Hvars]].
-    - change (t, map_ep e) with (map_decl (t, e)). apply in_map. exact Hin.
-    - change (t, map_ep e) with (map_decl (t, e)). rewrite serves_embed. exact Hs.
-  Qed.
+  Section Lookup.
+    Variable eps : list (decl V).
+    Variable r : node V.
+    Variable r' : node W.
+    Hypothesis Hk : known eps.
+    Hypothesis Hb : build V cmpV eps = Ok r.
+    Hypothesis Hb' : build W cmpW (map map_decl eps) = Ok r'.
 
-  Theorem lookup_embed_404 eps r r' m segs ov :
-    build V cmpV eps = Ok r -> build W cmpW (map map_decl eps) = Ok r' ->
-    (lookup V cmpV r m segs ov = E404 <-> lookup W cmpW r' m segs (option_map f ov) = E404).
-  Proof.
-    intros Hb Hb'. rewrite (table_404_iff V cmpV eps r m segs ov Hb).
-    rewrite (table_404_iff W cmpW (map map_decl eps) r' m segs (option_map f ov) Hb'). split; intros H.
-    - intros d' Hd'. apply in_map_iff in Hd'. destruct Hd' as (d & <- & Hd). rewrite tserves_embed. apply H. exact Hd.
-    - intros d Hd. rewrite <- tserves_embed. apply H. apply in_map. exact Hd.
-  Qed.
+    Lemma found_embed m segs ov e vars : version_ok V cmpV eps ov ->
+      lookup V cmpV r m segs ov = Found e vars ->
+      lookup W cmpW r' m segs (option_map f ov) = Found (map_ep e) vars.
+    Proof.
+      intros Hv Hl.
+      apply (dispatch_exact V cmpV botV TOV eps r m segs ov e vars Hb Hv) in Hl.
+      destruct Hl as (t & b & Hin & Hs & Hvars).
+      apply (dispatch_exact W cmpW botW TOW (map map_decl eps) r' m segs (option_map f ov) (map_ep e) vars Hb'
+               (version_ok_embed eps ov Hk Hv)).
+      exists t, b. split; [|split; [|exact Hvars]].
+      - change (t, map_ep e) with (map_decl (t, e)). apply in_map. exact Hin.
+      - change (t, map_ep e) with (map_decl (t, e)). rewrite serves_embed; [exact Hs|apply (Hk _ Hin)].
+    Qed.
+
+    Lemma found_reflect m segs ov e' vars : version_ok V cmpV eps ov ->
+      lookup W cmpW r' m segs (option_map f ov) = Found e' vars ->
+      exists e, e' = map_ep e /\ lookup V cmpV r m segs ov = Found e vars.
+    Proof.
+      intros Hv Hl.
+      apply (dispatch_exact W cmpW botW TOW (map map_decl eps) r' m segs (option_map f ov) e' vars Hb'
+               (version_ok_embed eps ov Hk Hv)) in Hl.
+      destruct Hl as (t & b & Hin & Hs & Hvars).
+      apply in_map_iff in Hin. destruct Hin as ([t0 e] & Heq & Hin). injection Heq as -> <-.
+      exists e. split; [reflexivity|].
+      apply (dispatch_exact V cmpV botV TOV eps r m segs ov e vars Hb Hv).
+      exists t, b. split; [exact Hin|split; [|exact Hvars]].
+      change (t, map_ep e) with (map_decl (t, e)) in Hs. rewrite serves_embed in Hs; [exact Hs|apply (Hk _ Hin)].
+    Qed.
+
+    Lemma e404_embed m segs ov :
+      lookup V cmpV r m segs ov = E404 <-> lookup W cmpW r' m segs (option_map f ov) = E404.
+    Proof.
+      rewrite (table_404_iff V cmpV eps r m segs ov Hb).
+      rewrite (table_404_iff W cmpW (map map_decl eps) r' m segs (option_map f ov) Hb'). split; intros H.
+      - intros d' Hd'. apply in_map_iff in Hd'. destruct Hd' as (d & <- & Hd).
+        rewrite tserves_embed; [apply H; exact Hd|apply (Hk _ Hd)].
+      - intros d Hd. rewrite <- tserves_embed; [|apply (Hk _ Hd)]. apply H. apply in_map. exact Hd.
+    Qed.
+
+    (* every lookup has the corresponding outcome: the same endpoint with the
+       same bindings, the same 404, the same 405 with the same Allow list *)
+    Theorem lookup_embed m segs ov : version_ok V cmpV eps ov ->
+      lookup W cmpW r' m segs (option_map f ov) = map_outcome (lookup V cmpV r m segs ov).
+    Proof.
+      intros Hv.
+      pose proof (build_spec V cmpV eps) as HsV. rewrite Hb in HsV. destruct HsV as (_ & HwfV & _).
+      pose proof (build_spec W cmpW (map map_decl eps)) as HsW. rewrite Hb' in HsW. destruct HsW as (_ & HwfW & _).
+      destruct (lookup V cmpV r m segs ov) as [e vars| |allow|] eqn:HV; cbn [map_outcome].
+      - apply found_embed; assumption.
+      - apply e404_embed. exact HV.
+      - destruct (lookup_exhaustive W cmpW r' m segs (option_map f ov) HwfW) as [(e' & vars' & HW)|[HW|(allow' & HW)]].
+        + destruct (found_reflect m segs ov e' vars' Hv HW) as (e & _ & HV'). congruence.
+        + apply e404_embed in HW. congruence.
+        + rewrite HW. f_equal.
+          destruct (table_405 V cmpV eps r m segs ov allow Hb HV) as (_ & HsA & HiA & _).
+          destruct (table_405 W cmpW (map map_decl eps) r' m segs (option_map f ov) allow' Hb' HW) as (_ & HsA' & HiA' & _).
+          apply keys_sorted_ext; [exact HsA'|exact HsA|].
+          intros k. rewrite HiA, HiA'. split.
+          * intros (d' & Hd' & Ht & Hm). apply in_map_iff in Hd'. destruct Hd' as (d & <- & Hd).
+            exists d. split; [exact Hd|]. rewrite tserves_embed in Ht; [|apply (Hk _ Hd)]. split; [exact Ht|exact Hm].
+          * intros (d & Hd & Ht & Hm). exists (map_decl d). split; [apply in_map; exact Hd|].
+            rewrite tserves_embed; [|apply (Hk _ Hd)]. split; [exact Ht|exact Hm].
+      - exfalso. exact (lookup_no_panic V cmpV r m segs ov HwfV HV).
+    Qed.
+  End Lookup.
 End REmbed.
